@@ -260,8 +260,9 @@ def shards(tier, seed):
     # P0: the demo project rebuilt from tests/pycomm3.L5X (a v20 controller; also served as v32)
     for pers in ("v20", "v32"):
         for scope in SCOPES:
-            if tier == "thorough":
-                # bound 2 on the big project: one exploration split over PARTS workers by the position of the first deviation
+            if tier == "thorough" and pers == "v20":
+                # bound 2 on the big project served as what it is (a v20 controller): one exploration split over PARTS workers by the position of the
+                # first deviation; served as v32 it is explored with bound 1 (the pagination code is the same, this halves a three-hour tier)
                 sh += [("explore", "P0", pers, scope, k) for k in range(PARTS)]
             else:
                 sh.append(("explore", "P0", pers, scope))
@@ -275,7 +276,7 @@ def shards(tier, seed):
 
 
 def describe(tier, seed):
-    return {"bounds": {"deviation_bound": 2 if tier == "thorough" else 1, "projects": PROJECTS, "personalities": PERS, "scopes": SCOPES,
+    return {"bounds": {"deviation_bound": ("2 (P1-P3, P0 as v20); 1 (P4, P0 as v32)" if tier == "thorough" else 1), "projects": PROJECTS, "personalities": PERS, "scopes": SCOPES,
                        "forced_modes": ["1 entry/page", "1-byte", "2-byte", "3-byte", "7-byte template fragments"]}, "exhaustive": True}
 
 
@@ -501,7 +502,7 @@ def run_shard(shard, tier, seed):
 
         sc = scenario_for(pn, pers, scope, image=image)
         canons = set()
-        bound = 2 if tier == "thorough" and pn != "P4" else 1
+        bound = 2 if tier == "thorough" and pn != "P4" and (pn != "P0" or part is not None) else 1
 
         def on_exec(ctx, out):
             report_exec(rep, cfg, ctx, out)
